@@ -17,6 +17,7 @@ from ndn.app_support.svs import sync as svs_sync
 from ndn.security import DigestSha256Signer
 from ndn import types as nt
 
+import mc
 from mc.core import Acc
 from mc.bfs import explore_histories
 from mc.vloop import VLoop, FakeTime
@@ -106,10 +107,9 @@ class World:
         self.loop.enter()
         self.env = owned_env(self.loop)
         self.env.__enter__()
-        self.old = (svs_sync.time, svs_sync.secrets)
         self.jit = JitterSource()
-        svs_sync.time = FakeTime(self.loop)
-        svs_sync.secrets = self.jit
+        self.old_bits = mc.CUR.get('randbits')
+        mc.CUR['randbits'] = self.jit.randbits          # timer jitter (secrets.randbits) is a harness decision
         self.face = HFace()
         self.app = FRONTENDS['v2'].make_app(self.face)
         self.loop.create_task(self.app.main_loop())
@@ -146,7 +146,7 @@ class World:
             self.loop.settle(200)
         except Exception:  # noqa
             pass
-        svs_sync.time, svs_sync.secrets = self.old
+        mc.CUR['randbits'] = self.old_bits
         self.env.__exit__(None, None, None)
         self.loop.__exit__(None, None, None)
 
@@ -185,7 +185,7 @@ class World:
 
     def canon(self):
         i = self.inst
-        rel = round((i.next_sync_timing - svs_sync.time.time()) * 1e6)
+        rel = round((i.next_sync_timing - mc.CUR['clock'].time()) * 1e6)
         agg = tuple(sorted((WIRE_ID.get(bytes(k), bytes(k).hex()), v) for k, v in i.agg_sv.items())) if i.state.name == 'SyncSuppression' else ()
         return (tuple(sorted(nz(self.local()).items())), agg, i.state.name, i.self_seq, rel,
                 None if self.H is None else tuple(sorted(nz(self.H).items())), i.timer_rst_event.is_set())
@@ -334,10 +334,9 @@ def run_relay(seq):
     """seq over {'pubA','pubB','A>B','B>A','tickA','tickB'}"""
     viol = []
     loop = VLoop()
-    old = (svs_sync.time, svs_sync.secrets)
+    old_bits = mc.CUR.get('randbits')
     with loop, owned_env(loop):
-        svs_sync.time = FakeTime(loop)
-        svs_sync.secrets = JitterSource()
+        mc.CUR['randbits'] = JitterSource().randbits
         try:
             nodes = {}
             for nm in 'AB':
@@ -403,7 +402,7 @@ def run_relay(seq):
                 nodes[nm]['app'].shutdown()
             loop.settle(200)
         finally:
-            svs_sync.time, svs_sync.secrets = old
+            mc.CUR['randbits'] = old_bits
     return viol
 
 
